@@ -198,7 +198,7 @@ impl <T: ArrayElement> ArrayReorder<T> for Array<T> {
                         .flat_map(|item| {
                             let mut tmp_item = item.elements.clone();
                             let len = tmp_item.len().to_isize();
-                            tmp_item.rotate_right(sh.rem_euclid(len).to_usize());
+                            if len > 0 { tmp_item.rotate_right(sh.rem_euclid(len).to_usize()); }
                             tmp_item
                         }).collect()
                     } else { flatten
